@@ -159,6 +159,6 @@ inst!(lane_aligned_sse2, [props=C01+C05 tier=quick cfg=x86std t=600 role=aligned
 #[cfg(any(vcfg_x86std, vcfg_x86none, vcfg_x86alloc, vcfg_x86avx2, vcfg_x86rel))]
 inst!(lane_aligned_avx2, [props=C01+C05 tier=quick cfg=x86std t=600 role=aligned-load-avx2], 34, aligned_load::<32>(2));
 #[cfg(any(vcfg_x86std, vcfg_x86none, vcfg_x86alloc, vcfg_x86avx2, vcfg_x86rel))]
-inst!(witness_misaligned_sse2, [props=C05 tier=quick cfg=x86std t=600 role=alignment-net-witness expect=fail:misaligned], 34, misaligned_witness(1));
+inst!(witness_misaligned_sse2, [props=C05 tier=quick cfg=x86std t=600 role=alignment-net-witness expect=failat:assert_aligned], 34, misaligned_witness(1));
 #[cfg(any(vcfg_x86std, vcfg_x86none, vcfg_x86alloc, vcfg_x86avx2, vcfg_x86rel))]
-inst!(witness_misaligned_avx2, [props=C05 tier=quick cfg=x86std t=600 role=alignment-net-witness expect=fail:misaligned], 34, misaligned_witness(2));
+inst!(witness_misaligned_avx2, [props=C05 tier=quick cfg=x86std t=600 role=alignment-net-witness expect=failat:assert_aligned], 34, misaligned_witness(2));
